@@ -152,6 +152,27 @@ func TestC06_Reuse(t *testing.T) {
 		case 0: // aliasing-prone built-ins applied to document arrays and literals
 			arg := gen.Pick(t, "arg", []ast.Expr{ast.Cur(), ast.F("a"), ast.F("b"), ast.Lit(jv.VArr([]jv.Val{jv.VInt(3), jv.VInt(1), jv.VInt(2)})), ast.F("a").With(ast.Step{Kind: ast.SSlice, Start: ast.I64(0)}), ast.F("a").With(ast.Step{Kind: ast.SListStar})})
 			fn := gen.Pick(t, "fn", []string{"sort", "reverse", "to_array", "not_null", "max", "min", "values", "keys", "sum"})
+			// value-preserving wrappers that may hand the caller's own array through
+			for k := rapid.IntRange(0, 2).Draw(t, "nwrap"); k > 0; k-- {
+				switch rapid.IntRange(0, 7).Draw(t, "wrapper") {
+				case 0:
+					arg = ast.Call("to_array", ast.A(arg))
+				case 1:
+					arg = ast.Call("not_null", ast.A(arg))
+				case 2:
+					arg = ast.Call("not_null", ast.A(ast.F("missing")), ast.A(arg))
+				case 3:
+					arg = ast.Paren(arg)
+				case 4:
+					arg = ast.Paren(ast.Bin("|", arg, ast.Cur()))
+				case 5:
+					arg = ast.Paren(ast.Bin("||", arg, ast.Lit(jv.VArr(nil))))
+				case 6:
+					arg = ast.Paren(&ast.Let{Names: []string{"w"}, Vals: []ast.Expr{arg}, Body: ast.Var("w")})
+				default:
+					arg = ast.Paren(ast.Bin("&&", ast.Lit(jv.VBool(true)), arg))
+				}
+			}
 			e = ast.Call(fn, ast.A(arg))
 		case 1:
 			arg := gen.Pick(t, "arg", []ast.Expr{ast.Cur(), ast.F("a"), ast.F("b")})
